@@ -1,7 +1,7 @@
 #!/bin/sh
 # usage: tools_seedtest.sh <seed dir (with patch.diff, demo.py)> <tier> <check ids...>
 # applies the patch in a scratch worktree of /repo HEAD and runs the given checks against it
-S="$1"; TIER="$2"; shift 2
+S="$(realpath "$1")"; TIER="$2"; shift 2
 WT=/tmp/seedwt-$$
 git -C /repo worktree add -q --detach "$WT" HEAD || exit 2
 if ! git -C "$WT" apply --3way "$S/patch.diff" 2>/tmp/seedapply.$$; then
